@@ -19,6 +19,11 @@ def main(argv):
         tier = "quick"
     seed = int(os.environ.get("VERIF_SEED", "0") or 0)
     t0 = time.time()
+    import warnings
+
+    warnings.simplefilter("ignore")
+    import gstools  # noqa: F401  imported once here; forked workers inherit it
+
     mod = importlib.import_module(f"symgs.props.{prop.lower()}")
     spec = mod.SPEC
     jobs = mod.jobs(tier, seed)
